@@ -90,6 +90,9 @@ def generic_aggregate(
                 else:
                     logger.debug(f"numbagg too old for ddof={ddof}. Falling back to numpy")
                     method = get_npg_aggregation(func, engine="numpy")
+            elif func in ["nanfirst", "nanlast"] and array.dtype.kind not in "fc":
+                # numbagg leaves groups without members uninitialised for integer input
+                method = get_npg_aggregation(func, engine="numpy")
             else:
                 method = getattr(aggregate_numbagg, func)
 
